@@ -679,8 +679,19 @@ impl Scenario for AesSc {
                     if r.open != Err("PasswordRequired".to_string()) {
                         return Err(viol("C16/no-password", format!("opening an AES entry without a password gave {:?} / {} bytes instead of the password-required error", r.open, r.bytes.len())));
                     }
+                    // PBKDF2-HMAC-SHA1 zero-pads a key shorter than the 64-byte block: "pw" and "pw\0" are the SAME
+                    // password as far as WinZip-AES is concerned (found as a false alarm under VERIF_SEED=4)
+                    let hmac_key = |p: &[u8]| -> Vec<u8> {
+                        let mut v = p.to_vec();
+                        if v.len() <= 64 {
+                            while v.last() == Some(&0) {
+                                v.pop();
+                            }
+                        }
+                        v
+                    };
                     for w in wrong {
-                        if w.0 == pw {
+                        if hmac_key(&w.0) == hmac_key(&pw) {
                             continue;
                         }
                         ctx.sub_evals += 1;
